@@ -50,21 +50,24 @@ ShpSeqs == UNION { [1..k -> ShapeIds] : k \in 1..MaxV }
 \* PTS - DTS = dv / da ticks on the video / audio track; ga = AAC (ADTS) frames per audio PES group: the first
 \* carries the PTS, the others ride behind it in the same PES payload (cut into ma PES like a single frame: with
 \* ma = 2 and no PTS on the second PES, a PES without PTS may begin with a new ADTS frame); tiny = audio frames
-\* of 1..4 bytes (ADTS: 8..11 bytes with the header)
-PsTab == [p1 |-> [m |-> 1, ma |-> 1, c |-> 1, pall |-> TRUE, sys |-> TRUE, psme |-> TRUE, join |-> FALSE, dts |-> FALSE, dv |-> 0, da |-> 0, ga |-> 1, tiny |-> FALSE],
-          p2 |-> [m |-> 2, ma |-> 2, c |-> 1, pall |-> TRUE, sys |-> FALSE, psme |-> FALSE, join |-> FALSE, dts |-> FALSE, dv |-> 0, da |-> 0, ga |-> 1, tiny |-> FALSE],
-          p3 |-> [m |-> 3, ma |-> 2, c |-> 2, pall |-> FALSE, sys |-> TRUE, psme |-> TRUE, join |-> TRUE, dts |-> FALSE, dv |-> 0, da |-> 0, ga |-> 1, tiny |-> FALSE],
-          p4 |-> [m |-> 2, ma |-> 1, c |-> 3, pall |-> FALSE, sys |-> FALSE, psme |-> TRUE, join |-> FALSE, dts |-> FALSE, dv |-> 0, da |-> 0, ga |-> 1, tiny |-> FALSE],
-          p5 |-> [m |-> 1, ma |-> 1, c |-> 2, pall |-> TRUE, sys |-> TRUE, psme |-> FALSE, join |-> TRUE, dts |-> FALSE, dv |-> 0, da |-> 0, ga |-> 1, tiny |-> FALSE],
-          p6 |-> [m |-> 0, ma |-> 1, c |-> 1, pall |-> FALSE, sys |-> TRUE, psme |-> TRUE, join |-> FALSE, dts |-> FALSE, dv |-> 0, da |-> 0, ga |-> 1, tiny |-> FALSE],
-          p7 |-> [m |-> 1, ma |-> 1, c |-> 1, pall |-> TRUE, sys |-> TRUE, psme |-> TRUE, join |-> FALSE, dts |-> TRUE, dv |-> 0, da |-> 0, ga |-> 1, tiny |-> FALSE],
-          p8 |-> [m |-> 2, ma |-> 2, c |-> 2, pall |-> FALSE, sys |-> TRUE, psme |-> TRUE, join |-> TRUE, dts |-> TRUE, dv |-> 3000, da |-> 900, ga |-> 1, tiny |-> FALSE],
-          p9 |-> [m |-> 2, ma |-> 2, c |-> 1, pall |-> TRUE, sys |-> FALSE, psme |-> TRUE, join |-> FALSE, dts |-> TRUE, dv |-> 7200, da |-> 0, ga |-> 1, tiny |-> FALSE],
-          p10 |-> [m |-> 1, ma |-> 1, c |-> 1, pall |-> TRUE, sys |-> TRUE, psme |-> TRUE, join |-> FALSE, dts |-> FALSE, dv |-> 0, da |-> 0, ga |-> 2, tiny |-> FALSE],
-          p11 |-> [m |-> 2, ma |-> 2, c |-> 2, pall |-> FALSE, sys |-> TRUE, psme |-> TRUE, join |-> TRUE, dts |-> TRUE, dv |-> 3000, da |-> 900, ga |-> 3, tiny |-> FALSE],
-          p12 |-> [m |-> 1, ma |-> 1, c |-> 1, pall |-> TRUE, sys |-> TRUE, psme |-> TRUE, join |-> FALSE, dts |-> FALSE, dv |-> 0, da |-> 0, ga |-> 1, tiny |-> TRUE],
-          p13 |-> [m |-> 2, ma |-> 2, c |-> 2, pall |-> FALSE, sys |-> FALSE, psme |-> TRUE, join |-> TRUE, dts |-> TRUE, dv |-> 0, da |-> 0, ga |-> 1, tiny |-> TRUE],
-          p14 |-> [m |-> 3, ma |-> 1, c |-> 3, pall |-> FALSE, sys |-> TRUE, psme |-> FALSE, join |-> FALSE, dts |-> FALSE, dv |-> 0, da |-> 0, ga |-> 3, tiny |-> TRUE]]
+\* of 1..4 bytes (ADTS: 8..11 bytes with the header); pph = a pack header in front of EVERY PES of a video frame (one
+\* access unit spread over several packs, as senders with a small pack size do)
+PsTab == [p1 |-> [m |-> 1, ma |-> 1, c |-> 1, pall |-> TRUE, sys |-> TRUE, psme |-> TRUE, join |-> FALSE, dts |-> FALSE, dv |-> 0, da |-> 0, ga |-> 1, tiny |-> FALSE, pph |-> FALSE],
+          p2 |-> [m |-> 2, ma |-> 2, c |-> 1, pall |-> TRUE, sys |-> FALSE, psme |-> FALSE, join |-> FALSE, dts |-> FALSE, dv |-> 0, da |-> 0, ga |-> 1, tiny |-> FALSE, pph |-> FALSE],
+          p3 |-> [m |-> 3, ma |-> 2, c |-> 2, pall |-> FALSE, sys |-> TRUE, psme |-> TRUE, join |-> TRUE, dts |-> FALSE, dv |-> 0, da |-> 0, ga |-> 1, tiny |-> FALSE, pph |-> FALSE],
+          p4 |-> [m |-> 2, ma |-> 1, c |-> 3, pall |-> FALSE, sys |-> FALSE, psme |-> TRUE, join |-> FALSE, dts |-> FALSE, dv |-> 0, da |-> 0, ga |-> 1, tiny |-> FALSE, pph |-> FALSE],
+          p5 |-> [m |-> 1, ma |-> 1, c |-> 2, pall |-> TRUE, sys |-> TRUE, psme |-> FALSE, join |-> TRUE, dts |-> FALSE, dv |-> 0, da |-> 0, ga |-> 1, tiny |-> FALSE, pph |-> FALSE],
+          p6 |-> [m |-> 0, ma |-> 1, c |-> 1, pall |-> FALSE, sys |-> TRUE, psme |-> TRUE, join |-> FALSE, dts |-> FALSE, dv |-> 0, da |-> 0, ga |-> 1, tiny |-> FALSE, pph |-> FALSE],
+          p7 |-> [m |-> 1, ma |-> 1, c |-> 1, pall |-> TRUE, sys |-> TRUE, psme |-> TRUE, join |-> FALSE, dts |-> TRUE, dv |-> 0, da |-> 0, ga |-> 1, tiny |-> FALSE, pph |-> FALSE],
+          p8 |-> [m |-> 2, ma |-> 2, c |-> 2, pall |-> FALSE, sys |-> TRUE, psme |-> TRUE, join |-> TRUE, dts |-> TRUE, dv |-> 3000, da |-> 900, ga |-> 1, tiny |-> FALSE, pph |-> FALSE],
+          p9 |-> [m |-> 2, ma |-> 2, c |-> 1, pall |-> TRUE, sys |-> FALSE, psme |-> TRUE, join |-> FALSE, dts |-> TRUE, dv |-> 7200, da |-> 0, ga |-> 1, tiny |-> FALSE, pph |-> FALSE],
+          p10 |-> [m |-> 1, ma |-> 1, c |-> 1, pall |-> TRUE, sys |-> TRUE, psme |-> TRUE, join |-> FALSE, dts |-> FALSE, dv |-> 0, da |-> 0, ga |-> 2, tiny |-> FALSE, pph |-> FALSE],
+          p11 |-> [m |-> 2, ma |-> 2, c |-> 2, pall |-> FALSE, sys |-> TRUE, psme |-> TRUE, join |-> TRUE, dts |-> TRUE, dv |-> 3000, da |-> 900, ga |-> 3, tiny |-> FALSE, pph |-> FALSE],
+          p12 |-> [m |-> 1, ma |-> 1, c |-> 1, pall |-> TRUE, sys |-> TRUE, psme |-> TRUE, join |-> FALSE, dts |-> FALSE, dv |-> 0, da |-> 0, ga |-> 1, tiny |-> TRUE, pph |-> FALSE],
+          p13 |-> [m |-> 2, ma |-> 2, c |-> 2, pall |-> FALSE, sys |-> FALSE, psme |-> TRUE, join |-> TRUE, dts |-> TRUE, dv |-> 0, da |-> 0, ga |-> 1, tiny |-> TRUE, pph |-> FALSE],
+          p14 |-> [m |-> 3, ma |-> 1, c |-> 3, pall |-> FALSE, sys |-> TRUE, psme |-> FALSE, join |-> FALSE, dts |-> FALSE, dv |-> 0, da |-> 0, ga |-> 3, tiny |-> TRUE, pph |-> FALSE],
+          p15 |-> [m |-> 3, ma |-> 1, c |-> 1, pall |-> FALSE, sys |-> TRUE, psme |-> TRUE, join |-> FALSE, dts |-> FALSE, dv |-> 0, da |-> 0, ga |-> 1, tiny |-> FALSE, pph |-> TRUE],
+          p16 |-> [m |-> 2, ma |-> 2, c |-> 2, pall |-> TRUE, sys |-> TRUE, psme |-> FALSE, join |-> TRUE, dts |-> TRUE, dv |-> 3000, da |-> 0, ga |-> 1, tiny |-> FALSE, pph |-> TRUE]]
 
 \* timestamp regions: at = the landmark, x = the track crosses it (else it starts there)
 Reg == [lo  |-> [at |-> <<0, 0, 0>>, x |-> FALSE],
@@ -162,7 +165,8 @@ PsPlan(p) ==
              [f |-> f, m |-> IF fs[f].trk = "v" THEN t.m ELSE t.ma, c |-> t.c, pall |-> t.pall,
               sys |-> t.sys /\ (f = 1 \/ HasKind(fs[f], {"idr"})),
               psm |-> f = 1 \/ (t.psme /\ HasKind(fs[f], ParamKinds \cup {"idr"})),
-              join |-> t.join /\ fs[f].trk = "a" /\ f > 1, dts |-> t.dts, ride |-> fs[f].g > 0]]
+              join |-> t.join /\ fs[f].trk = "a" /\ f > 1, dts |-> t.dts, ride |-> fs[f].g > 0,
+              pph |-> t.pph /\ fs[f].trk = "v"]]
 
 SdpSets(p) == IF p.sdp THEN [x \in 1..Len(Need(p.vc)) |-> [k |-> Need(p.vc)[x], n |-> 1]] ELSE <<>>
 Asc(p) == <<2, AudioTab[p.au].fi, IF AudioTab[p.au].r >= 44100 THEN 2 ELSE 1>>
